@@ -8,6 +8,7 @@ time (cancelled / interrupted / closed), which frees its bandwidth at once.
 from fractions import Fraction
 
 INF = float('inf')
+TIE = Fraction(1, 10 ** 9)
 
 
 def frac(value):
@@ -42,6 +43,7 @@ def simulate(throughput, participants, removals):
             result[id(st)] = st['limit'] * scale
         return result
 
+    recent_done = []
     guard = 0
     while True:
         guard += 1
@@ -49,6 +51,7 @@ def simulate(throughput, participants, removals):
             raise RuntimeError('fluid model does not terminate')
         # start whatever is due, finish whatever is complete, remove whoever is struck - at `now`
         progress = True
+        completed_now = []
         while progress:
             progress = False
             for name, st in state.items():
@@ -71,6 +74,8 @@ def simulate(throughput, participants, removals):
                     progress = True
                 if st['phase'] == 'transfer' and (st['remaining'] == 0 or st['limit'] == INF):
                     st['ends'].append(now)
+                    if st['rounds'][st['index']][1] != 0 and st['limit'] != INF:
+                        completed_now.append(st['limit'])
                     st['index'] += 1
                     if st['index'] < len(st['rounds']):
                         st['phase'] = 'waiting'
@@ -79,6 +84,21 @@ def simulate(throughput, participants, removals):
                         st['phase'] = 'done'
                         st['gone'] = True
                     progress = True
+        if capacity != INF:
+            # Ill-conditioned (near-)tie: a transfer completes at (nearly) the instant from which
+            # on a transfer with a vastly larger limit starves it. The implementation computes in
+            # floats; whether a rounding remainder of 1e-16 of the volume is left at that instant
+            # decides between 'done now' and 'done after the large transfer'. Neither is wrong.
+            recent_done = [(when, limit) for when, limit in recent_done
+                           if now - when <= TIE * max(1, now)]
+            recent_done.extend((now, limit) for limit in completed_now)
+            active = [st for st in state.values() if st['phase'] == 'transfer' and not st['gone']]
+            biggest = max((st['limit'] for st in active), default=0)
+            small = [limit for _, limit in recent_done]
+            small.extend(st['limit'] for st in active
+                         if st['remaining'] <= TIE * frac(st['rounds'][st['index']][1]))
+            if small and biggest > 10 ** 6 * min(small):
+                ambiguous = True
         current = rates()
         candidates = []
         for name, st in state.items():
